@@ -127,6 +127,7 @@ func c12(r *core.Report) {
 
 	// ---- C12-OWNED-CLOSED
 	r.Rule("C12-OWNED-CLOSED", "every TellHub/AskHub/Queue field of a module struct is closed on a path reachable from the owner's Close", 14)
+	r.Rule("C12-CLOSE-TOTAL", "the owner's Close closes its hub on every path, not only on the success path", 6)
 	cha := p.CHA()
 	isCloser := func(c *ssa.CallCommon) bool {
 		f := core.StaticCallee(c)
@@ -203,6 +204,49 @@ func c12(r *core.Report) {
 				r.Analysed(closeM)
 				if reachesCloser(closeM) {
 					r.OK("C12-OWNED-CLOSED", c, p.Pos(f.Pos()), "closed on a call path from "+core.FnName(closeM))
+					// and on EVERY path: a Close that returns early (an inner Close failed, ...) leaves
+					// the receivers blocked on this hub
+					var total func(fn *ssa.Function, depth int) bool
+					total = func(fn *ssa.Function, depth int) bool {
+						if fn == nil || fn.Blocks == nil || depth > 4 {
+							return false
+						}
+						return mustPass(fn, func(in ssa.Instruction) bool {
+							ci, ok := in.(ssa.CallInstruction)
+							if !ok {
+								return false
+							}
+							cc := ci.Common()
+							if isCloser(cc) && len(cc.Args) > 0 {
+								if ff, _ := core.FieldOfAddr(cc.Args[0]); core.SameField(ff, f) {
+									return true
+								}
+							}
+							if mc, ok := cc.Value.(*ssa.MakeClosure); ok {
+								if lit, _ := mc.Fn.(*ssa.Function); lit != nil && total(lit, depth+1) {
+									return true
+								}
+							}
+							g := core.StaticCallee(cc)
+							if g == nil {
+								return false
+							}
+							if p.InModule(g) {
+								return total(g, depth+1)
+							}
+							if core.CalleeName(cc) == "(*sync.Once).Do" && len(cc.Args) == 2 {
+								if mc, ok := cc.Args[1].(*ssa.MakeClosure); ok {
+									lit, _ := mc.Fn.(*ssa.Function)
+									return total(lit, depth+1)
+								}
+								if lit, ok := cc.Args[1].(*ssa.Function); ok {
+									return total(lit, depth+1)
+								}
+							}
+							return false
+						})
+					}
+					r.Check(total(closeM, 0), "C12-CLOSE-TOTAL", c, p.Pos(closeM.Pos()), "every path through "+core.FnName(closeM)+" closes the hub before returning", "some path through "+core.FnName(closeM)+" returns without closing this hub (an early return): Receive/ServeAsk blocked on it never wake although Close returned")
 					continue
 				}
 			}
